@@ -10,6 +10,9 @@ connection) and the caller-visible outcome are compared with the Lean model `Sta
 Pair suite (section "pairs" below): two operations of two connections on the SAME message, one of them parked before each
 of its SQL statements / its commit while the other runs completely; conservation, one-holder, return-value and
 equals-one-sequential-order oracles on the implementation, and the outcome compared with the model's two sequential orders.
+
+Threaded processor (harness/queue_proc.py, started first and collected last in `run`): real QueueProcessor.start()/stop() with
+a scripted handler and a short real-time lock; monitors on the trace of handler runs and trigger notes.
 """
 from __future__ import annotations
 
@@ -34,6 +37,14 @@ RULE = ("(1) pairs, enumerated completely: one message; 15 precondition states (
         "enumerated as Y only: as X it is poll_one in the matching lapsed state. Thorough tier adds two variants of the whole space: a "
         "delayed bystander message no operation may touch, and a message that already failed once. A schedule is distinct by "
         "(state, X, Y, k, variant); all are non-trivial. "
+        "(3) threaded processor (harness/queue_proc.py), real QueueProcessor.start()/stop() on a real SqliteQueue with a 0.4 s lock and a "
+        "scripted handler (per message and invocation: return / raise / block until the row was claimed again or the lock has "
+        "certainly lapsed, then return or raise): the full grid 5 script families (all return; first run outlives the lock then "
+        "raises / then returns; a run raises quickly; every run raises up to the attempt limit) x heartbeat on / off / interval > "
+        "lock x max_workers 1-3 x 1-3 messages = 135 scenarios, in worker processes; thorough adds 420 random scripts (limit 2-3, "
+        "retry delay 0 / 50 ms, sweep on / off). A scenario is distinct by its configuration and scripts; what its timing produced "
+        "(row re-claimed while a run still executes, failed run rescheduled, dead-lettered, heartbeat renewed) is tagged, a timing that "
+        "did not materialise is tagged not-materialised and is not an alarm. "
         "(2) random op sequences (12-40 ops, 2-3 workers, queue max_attempts 1-3) generated adaptively against the real queue: "
         "push / transactional push (own max_attempts) / undeserialisable rows, split and atomic polls, ack / reschedule / "
         "extend by the holder, by stale workers (lapsed lock, old Message object) and with hand-made Messages, expire / mature, move_to_dlq / sweep / replay_dlq, process_one with a "
@@ -59,6 +70,22 @@ ASSUMPTIONS = [
     "registered on every connection labels the trigger ledger); an ack() that deletes nothing acknowledges nothing",
     "pairs: the count returned by check_and_move_expired is not compared (it is the number of rows the sweep's SELECT saw; when another "
     "connection moves or acknowledges the row first the sweep still counts it) — masked as `n` on both sides",
+    "threaded processor: the handler is the harness's scripted function, deduplication is off (no store), one processor per queue file; "
+    "`a run returned` = the scripted handler reached its end, recorded before it returns to the processor; `acknowledged` = a queue row "
+    "deleted by a statement the processor's thread executed inside queue.ack() (triggers call a SQL function registered on every "
+    "connection the engine opens; thin wrappers on the queue INSTANCE only label the calling thread, the calls are the processor's)",
+    "threaded processor: real time. The queue compares locked_until at whole seconds, so a 0.4 s lock lapses 0.4-1.4 s after the claim; "
+    "a blocked run is released 0.3 s after its row was claimed again, at the latest lock + 1.7 s (heartbeat off) / 4 x lock + 1.8 s "
+    "(interval > lock) after it started. All oracles are safety statements over the recorded trace and hold for any timing; only "
+    "coverage depends on the timing",
+    "threaded processor: the history fed to the model is a function of RECORDED facts only: the writes in SQLite's serial order (trigger "
+    "notes with row id, attempts, version, deliver_at) and the row each claim UPDATE took. When poll_one's SELECT read its snapshot is not "
+    "recorded; the history uses the model's own poll split (sel / claim) with the SELECT at the earliest point the records allow (after the "
+    "previous claim and after the write that made the picked row eligible) — rows freed later were either not seen or lost the ORDER BY, "
+    "the pick is the same. A scenario stays in the tie only if, on the recorded deliver_at values, the picked row is the minimum of the rows "
+    "eligible at that point AND the model's op-order stamps give the same minimum (reschedule() computes deliver_at before its UPDATE, so "
+    "commit order and deliver_at order can differ), also for the rows left at the end; otherwise it is left out of the tie "
+    "(tag left-out-of-the-model-tie:<why>), its monitors stay",
     "pairs: an outcome that differs from both sequential orders ONLY in deliver_at (deliverable flag / delivery order) is recorded under "
     "pair_timing_only_differences, not reported: reschedule(delay) by a lapsed holder between another poller's SELECT and claim lets the "
     "claim succeed (reschedule does not bump the version), i.e. one retry delay is skipped; places, holder and return values are those of X;Y",
@@ -72,6 +99,11 @@ TRUSTED_BASE = [
     "showPairSplit); that an interleaved execution equals one sequential order is CHECKED on every enumerated schedule, not proved — "
     "the theorems (pair_conservation, pair_one_holder, replay_second_fails, move_second_noop, ack_excludes_move, move_excludes_ack) "
     "are about the sequential orders; SQLite's statement atomicity and write-lock exclusion between connections are trusted",
+    "threaded processor (QueueProcessor._poll_loop, _submit_message_internal.process_and_ack, _start_lock_heartbeat, _check_dlq): "
+    "IMPLEMENTATION-ONLY monitors — the Lean Queue model has no threads and no notion of a handler run, so `acknowledged only after a "
+    "handler run returned` (proc:acked-without-returned-run, proc:gone-and-never-handled) is checked on the enumerated scenarios, not "
+    "proved. The model is used only as a sequential reference for the committed history of each scenario (poll results, final places, "
+    "attempts, versions: suite queue-threaded-history); thread scheduling, the executor and the heartbeat timing are real and unmodelled",
     "pairs: harness/dbshim.py gates (park before execute() / before a transaction-ending commit()) are the only scheduler; statements "
     "issued through cursor objects or executemany would not be seen (the queue code uses conn.execute only)",
 ]
@@ -1268,6 +1300,8 @@ def _run_replays(ctx, pool: Pool) -> None:
     for f in sorted(d.glob("*.json")):
         body = json.loads(f.read_text())
         r = body.get("replay", body)
+        if "proc" in r:
+            continue        # threaded-processor scenarios are run with the others by harness/queue_proc.py
         if "pair" in r:
             hits: list = []
 
@@ -1305,6 +1339,9 @@ def _quiet() -> None:
 def run(ctx) -> None:
     install()
     _quiet()
+    from harness import queue_proc
+
+    threaded = queue_proc.start(ctx)          # real QueueProcessor.start()/stop() scenarios in worker processes, overlapped with the suites below
     pool = Pool()
     try:
         _run_replays(ctx, pool)
@@ -1312,8 +1349,12 @@ def run(ctx) -> None:
         ctx.extra["pair_space_enumerated_completely"] = True     # (the op-sequence space below is sampled)
         _suite(ctx, pool, ctx.n(1200, 9000), "queue-mode-a")
         ctx.extra["dangling_write_txn_after_not_found"] = ctx.tags.get("dangling-write-txn-after-not-found", 0)
+        queue_proc.finish(ctx, threaded)
+        threaded = None
     finally:
         pool.close()
+        if threaded is not None:
+            threaded["pool"].terminate()
 
 
 def search(ctx) -> None:
@@ -1373,6 +1414,10 @@ def replay(ctx, body) -> int:
     pool = Pool()
     try:
         r = body.get("replay", body)
+        if "proc" in r:
+            from harness import queue_proc
+
+            return queue_proc.replay(ctx, r["proc"])
         if "pair" in r:
             return _replay_pair(ctx, pool, r["pair"])
         bed = Bed(r["max_attempts"], r.get("nworkers", 3), pool.base, pool.workers, pool.producer)
